@@ -148,6 +148,7 @@ func (x *c28) roaringImport(fld string, bits []wbit, clear bool, official bool) 
 		if err := x.s.api().ImportRoaring(x.s.ctx, x.s.Index, fld, sh, false, req); err != nil {
 			return err
 		}
+		x.s.NoteCols(sh * SW)
 	}
 	return nil
 }
@@ -197,7 +198,9 @@ func (x *c28) importBits(fld string, bits []wbit, clear bool, pad int) error {
 	}
 	x.s.Log = append(x.s.Log, fmt.Sprintf("ImportKeys(%s, clear=%v, rows %v%v cols %v%v)", fld, clear, req.RowIDs, req.RowKeys, req.ColumnIDs, req.ColumnKeys))
 	// translation happens on the coordinator
-	return x.s.Nd.C[0].API.Import(x.s.ctx, req, pilosa.OptImportOptionsClear(clear))
+	err := x.s.Nd.C[0].API.Import(x.s.ctx, req, pilosa.OptImportOptionsClear(clear))
+	x.s.SettleShards()
+	return err
 }
 
 func (x *c28) importValues(seq [][2]int, pad int) error {
@@ -214,7 +217,9 @@ func (x *c28) importValues(seq [][2]int, pad int) error {
 			req.Values = append(req.Values, x.p.Val(cv[1]))
 		}
 		x.s.Log = append(x.s.Log, fmt.Sprintf("ImportValueKeys(%v %v)", req.ColumnKeys, req.Values))
-		return x.s.Nd.C[0].API.ImportValue(x.s.ctx, req)
+		err := x.s.Nd.C[0].API.ImportValue(x.s.ctx, req)
+		x.s.SettleShards()
+		return err
 	}
 	byShard := map[uint64]*pilosa.ImportValueRequest{}
 	var order []uint64
@@ -247,6 +252,7 @@ func (x *c28) importValues(seq [][2]int, pad int) error {
 				return err
 			}
 		}
+		x.s.NoteCols(sh * SW)
 	}
 	return nil
 }
